@@ -252,6 +252,38 @@ def depth_cases(thorough: bool) -> list[tuple[str, str]]:
 	return out
 
 
+# multi-file inputs (harness/c07_pipeline.py): the main text imports a chain of sibling modules; the LEAF is what varies.
+# `__M__<name>` = module path of sibling <name>; `#%%FILE <name>` starts a sibling's text, `#%%MISSING <name>` declares one without a file.
+PROJECT_SHAPES: dict[str, str] = {
+	'depth1': 'from __M__leaf import L\nclass Top(L): ...\n#%%{LEAF}',
+	'depth2': 'from __M__mid import Mid\nclass Top(Mid): ...\n#%%FILE mid\nfrom __M__leaf import L\nclass Mid(L): ...\n#%%{LEAF}',
+	'depth3': 'from __M__a import A\nclass Top(A): ...\n#%%FILE a\nfrom __M__b import B\nclass A(B): ...\n#%%FILE b\nfrom __M__leaf import L\nclass B(L): ...\n#%%{LEAF}',
+	'diamond': 'from __M__x import X\nfrom __M__y import Y\nclass Top(X): ...\n#%%FILE x\nfrom __M__leaf import L\nclass X(L): ...\n#%%FILE y\nfrom __M__leaf import L\nclass Y(L): ...\n#%%{LEAF}',
+	'healthy-sibling-first': 'from __M__ok import K\nfrom __M__mid import Mid\nclass Top(Mid): ...\n#%%FILE ok\nclass K: ...\n#%%FILE mid\nfrom __M__ok import K\nfrom __M__leaf import L\nclass Mid(L): ...\n#%%{LEAF}',
+}
+LEAF_VALID = 'class L:\n\tdef f(self) -> int:\n\t\treturn 1\n'
+LEAF_BROKEN: list[str] = ['class L:\n\tdef f(self) -> int:\n\t\treturn (1\n', 'class L(:\n', 'class L:\n\t\tx: int = 1\n\ty: int = 2\n', 'class L: $\n', 'class L:\n\tdef f(self) -> int\n\t\treturn 1\n']
+
+
+def project_inputs(rng: random.Random, n_mutated: int) -> list[tuple[str, str, bool]]:
+	"""(label, multi-file text, leaf_rejected_by_construction): every shape with a valid leaf, each broken leaf, a missing leaf file, and
+	token-mutated leaves (whether those still parse is decided by lark at run time)."""
+	out: list[tuple[str, str, bool]] = []
+	for shape, text in PROJECT_SHAPES.items():
+		out.append((f'{shape}/valid', text.replace('{LEAF}', f'FILE leaf\n{LEAF_VALID}'), False))
+		for b in LEAF_BROKEN:
+			out.append((f'{shape}/broken', text.replace('{LEAF}', f'FILE leaf\n{b}'), True))
+		out.append((f'{shape}/missing', text.replace('{LEAF}', 'MISSING leaf\n'), True))
+	shapes = list(PROJECT_SHAPES.items())
+	for _ in range(n_mutated):
+		shape, text = rng.choice(shapes)
+		leaf = ''.join(mutate_tokens(rng, tokens_of(LEAF_VALID)))
+		if '#%%' in leaf or '__M__' in leaf:
+			continue
+		out.append((f'{shape}/mutated-leaf', text.replace('{LEAF}', f'FILE leaf\n{leaf}'), False))
+	return out
+
+
 def fixture_programs() -> list[tuple[str, str]]:
 	"""(name, source) of the repository's own valid sources used as mutation seeds (tests' fixtures, example/)."""
 	rels = [
